@@ -103,7 +103,11 @@ def export_unitary(qc, framework, mode):
         if mode == "gate":
             if obj is None:
                 return np.eye(2 ** n, dtype=complex)
-            return np.array(represent(obj, nqubits=n).tolist(), dtype=complex)
+            rep_ = represent(obj, nqubits=n)
+            if not hasattr(rep_, "tolist"):
+                # sympy collapsed the product (g * g) to the scalar 1: the identity operator
+                return np.eye(2 ** n, dtype=complex) * complex(rep_)
+            return np.array(rep_.tolist(), dtype=complex)
         raise NotImplementedError
     raise ValueError(framework)
 
